@@ -1,9 +1,11 @@
 import TrackpyV.Model.Proto
 import TrackpyV.Model.Adaptive
+import TrackpyV.Model.AdaptiveAlgo
 import TrackpyV.Driver.Linker
 
 /-! `ARUN p=3 q=4 sn=1 sd=4 maxa=3 w=.. B=.. mem=.. maxn=.. maxsize=.. vel=- drop=0 ; <levels as LRUN>`
-  -> `verdict=<ok|bad|expect-oversize|capped> step=<k> reduced=<n> finals=<n> reason=<..>` -/
+  -> `verdict=<ok|bad|expect-oversize|capped> step=<k> reduced=<n> finals=<n> capsteps=<n> ties=<n|?> reason=<..>`
+  (`ties` = number of steps in which some final group's optimum is not unique, only when `ok`) -/
 namespace TrackpyV.Driver.Adaptive
 open TrackpyV.Proto TrackpyV.Linker TrackpyV.Adaptive TrackpyV.Driver.Linker
 
@@ -24,7 +26,8 @@ def handleRun (rest : String) : String :=
     | some a, some cfg, some levels =>
       let r := runCheckA a cfg levels
       let why := r.reason.replace " " "_"
-      s!"verdict={r.verdict} step={r.step} reduced={r.reduced} finals={r.finals} capsteps={r.cappedSteps} reason={why}"
+      let ties := if r.verdict == "ok" then toString (runTiesA a cfg levels) else "?"
+      s!"verdict={r.verdict} step={r.step} reduced={r.reduced} finals={r.finals} capsteps={r.cappedSteps} ties={ties} reason={why}"
     | _, _, _ => "bad-op"
 
 def handlers : List (String × (String → String)) := [("ARUN", handleRun)]
